@@ -128,16 +128,22 @@ class PX:
     def generic_args(self):
         self.expect("<")
         parts = []
-        while not self.at(">"):
-            if self.at(">>"):
-                raise Unsupported("nested generic arguments closed by `>>`", self.peek().pos)
+        while not (self.at(">") or self.at(">>")):
             if self.peek().kind == "life":
                 parts.append(self.next().text)
             else:
-                parts.append(self.ty())
+                t = self.ty()
+                if self.at("="):                       # associated type binding `Item = C`
+                    self.next()
+                    t += " = " + self.ty()
+                parts.append(t)
             if self.at(","):
                 self.next()
-        self.next()
+        if self.at(">>"):                              # `Vec<Vec<u8>>`: split the token
+            x = self.t[self.i]
+            self.t[self.i] = cb.Tok("op", ">", x.pos + 1)
+        else:
+            self.next()
         return ", ".join(parts)
 
     # ---- patterns
@@ -903,7 +909,7 @@ def atom_block(s):
 
 
 def atom_ty(s):
-    return "(" + s + ")" if " " in s else s
+    return "(" + s + ")" if (" " in s and not (s[0] == "(" and _closed(s))) else s
 
 
 def split_top(s):
@@ -1123,6 +1129,31 @@ unit(name="SrcSbRankOrd", dialect="px", props="property C17", file=RS_FILE,
               header="fn partial_cmp(&self, other: &Self) -> Option<cmp::Ordering>",
               self_ty="SuperblockRank", params=[("other", "SuperblockRank")], ret="Option<cmp::Ordering>",
               theorem="RbV.Thm.C17.superblock_rank_ord_source_eq_model"),
+     ])
+
+
+ORF_FILE = "src/seq_analysis/orf.rs"
+
+# C20: the constructors in front of the translated `orf::Matches::next` (`Gen/SrcOrf.lean`, genmisc).  An `Orf` is the triple
+# `(start, end, offset)` as there; `iter::Enumerate<T>` is the list of the remaining `(index, item)` pairs as there.
+unit(name="SrcOrfNew", dialect="px", props="property C20", file=ORF_FILE,
+     decls={"Finder": dict(kind="struct", head="pub struct Finder", lean="Finder"),
+            "State": dict(kind="struct", head="struct State", lean="State"),
+            "Matches": dict(kind="struct", head="pub struct Matches<'a, C, T> where C: Borrow<u8>, T: Iterator<Item = C>,",
+                            lean="Matches")},
+     types={"Orf": "(Nat × Nat × Nat)", "iter::Enumerate<T>": "List (Nat × Nat)", "Self": "Finder"},
+     calls={"State::new": dict(lean="stateNew", ret="State")},
+     functions=[
+         dict(name="new", key="Finder::new", lean="finderNew", within="impl Finder",
+              header="pub fn new<'a>(start_codons: Vec<&'a [u8; 3]>, stop_codons: Vec<&'a [u8; 3]>, min_len: usize,) -> Self",
+              params=[("start_codons", "Vec<[u8; 3]>"), ("stop_codons", "Vec<[u8; 3]>"), ("min_len", "usize")], ret="Finder",
+              theorem="RbV.Thm.C20.orf_find_all_source_accepted"),
+         dict(name="new", key="State::new", lean="stateNew", within="impl State", header="pub fn new() -> Self",
+              params=[], ret="State", theorem="RbV.Thm.C20.orf_find_all_source_accepted"),
+         dict(name="find_all", lean="findAll", within="impl Finder",
+              header="pub fn find_all<C, T>(&self, seq: T) -> Matches<'_, C, T::IntoIter> where C: Borrow<u8>, T: IntoIterator<Item = C>,",
+              self_ty="Finder", params=[("seq", "[u8]")], ret="Matches",
+              theorem="RbV.Thm.C20.orf_find_all_source_accepted"),
      ])
 
 
